@@ -31,6 +31,8 @@ SAFE = ['SafeLoader', 'CSafeLoader']
 FULL = ['FullLoader', 'CFullLoader']
 UNSAFE = ['UnsafeLoader', 'CUnsafeLoader', 'Loader', 'CLoader']
 OBJTAG = '!!python/object:harness.canary.Obj '
+# concrete anchor names: every character class an anchor name may contain, several characters long
+ANCHOR_NAME = {'a': 'alpha-1_A', 'b': 'b2'}
 SOBJTAG = '!!python/object:harness.canary.SObj '
 APPTAG = '!!python/object/apply:harness.canary.mkapp '
 
@@ -51,11 +53,11 @@ def print_stream(evs):
         i = pos[0]
         e = evs[i]
         pos[0] += 1
-        anc = '' if e['a'] == '-' else '&%s ' % e['a']
+        anc = '' if e['a'] == '-' else '&%s ' % ANCHOR_NAME[e['a']]
         if e['k'] == 'S':
             return anc + 's%d' % (i + 1)
         if e['k'] == 'A':
-            return '*%s' % e['a']
+            return '*%s' % ANCHOR_NAME[e['a']]
         if e['k'] == 'Q':
             items = []
             while pos[0] < len(evs) and evs[pos[0]]['k'] != 'E':
@@ -176,6 +178,19 @@ def proj_node(n, nodes):
     return go(n)
 
 
+class ShortReads:
+    """text stream whose read() returns 1-5 characters at a time (sizes derived from the text)"""
+    def __init__(self, text):
+        self.t, self.p, self.k = text, 0, len(text)
+
+    def read(self, n=-1):
+        size = 1 + (self.k * 7 + self.p) % 5
+        self.k += 3
+        piece = self.t[self.p:self.p + (size if n is None or n < 0 else min(size, n))]
+        self.p += len(piece)
+        return piece
+
+
 def work(states, extra):
     yaml = use_repo()
     from yaml import nodes
@@ -213,6 +228,23 @@ def work(states, extra):
                 err = 'RecursionError'
             except Exception as e:
                 err = 'exception:' + type(e).__name__
+            # the same document delivered through a stream with short reads (pure-Python reader: every refill boundary falls
+            # inside some lexeme - anchor and alias names included); what the document means does not depend on delivery
+            if not L.__name__.startswith('C'):
+                got2, err2 = [], None
+                try:
+                    for d in yaml.load_all(ShortReads(text), Loader=L):
+                        got2.append(proj_obj(d, Obj, App, SObj))
+                except yaml.YAMLError as e:
+                    err2 = type(e).__name__
+                except RecursionError:
+                    err2 = 'RecursionError'
+                except Exception as e:
+                    err2 = 'exception:' + type(e).__name__
+                if (got2, err2) != (got, err):
+                    res['bad'].append({'doc': text, 'loader': L.__name__, 'outcome': outcome, 'delivery': 'short reads',
+                                       'kinds': sorted({e['t'] for e in evs if e['k'] in 'QM'}),
+                                       'why': 'load_all from a short-read stream: %r / %s, from str: %r / %s' % (got2, err2, got, err)})
             why = None
             if outcome == 'deep_soft' and err == 'ConstructorError' and got == exp_objs[:len(got)]:
                 pass        # a self-reference inside deep-constructed arguments: the implementation's documented limit
@@ -265,14 +297,15 @@ def main(tier, replay=None):
             raise SystemExit('machinery failure: dump has %d states, TLC found %d' % (sum(o['n'] for o in out), r.distinct))
         t = sum(o['tested'] for o in out)
         tested += t
-        traces += t * len(loaders) * 2
+        traces += t * len(loaders) * 2 + t * sum(1 for n_ in loaders if not n_.startswith('C'))
         nontrivial += sum(o['nontrivial'] for o in out)
         for o in out:
             samples += o['samples']
             for k, n in o['outcomes'].items():
                 outcomes[k] = outcomes.get(k, 0) + n
             for b in o['bad']:
-                v.violation({'config': name, 'loader': b['loader'], 'outcome': b['outcome'], 'kinds': b['kinds']}, b)
+                v.violation(dict({'config': name, 'loader': b['loader'], 'outcome': b['outcome'], 'kinds': b['kinds']},
+                                 **({'delivery': b['delivery']} if 'delivery' in b else {})), b)
         os.remove(r.dump)
     for k in ['run', 'undefined_alias', 'duplicate_anchor', 'unhashable_key', 'unconstructable', 'deep_soft']:
         if not outcomes.get(k):
